@@ -153,13 +153,19 @@ class SymMode(BaseMode):
     def _values_from(self, model):
         return core.model_values(model)
 
-    def _check_sym(self, claim, label, key, detail):
+    def _check_sym(self, claim, label, key, detail, robust=None):
         self.n_obl += 1
         self.n_solver += 1
         st, m = core.ENG.prove(claim, self.obligation_timeout_ms)
         if st == "proved":
             return True
         if st == "cex":
+            if robust is not None:
+                # prefer a counterexample that violates the claim by a margin (boundary models - exact ties - are
+                # absorbed by the float tolerance of the concrete replay)
+                r2, m2 = core.ENG._check([robust], 5000)
+                if r2 == "sat":
+                    m = m2
             self.failures.append(Failure(label, self.key(label, key), detail or "solver counterexample", self._values_from(m)))
             return False
         self.inconclusive.append((label, "solver unknown"))
@@ -201,7 +207,14 @@ class SymMode(BaseMode):
                 self.failures.append(Failure(label, self.key(label, key), detail or f"{op}: {str(a)[:100]} vs {str(b)[:100]}",
                                              self._values_from(core.ENG.witness())))
             return claim
-        return self._check_sym(claim, label, key, detail or f"{op}: got {str(a)[:200]} want {str(b)[:200]}")
+        margin = core.lift(Fraction(1, 1000))
+        if op == "eq":
+            r1, r2 = core.cmp_zero((a - b - margin).q, "ge"), core.cmp_zero((b - a - margin).q, "ge")
+            robust = z3.Or(*[x if not isinstance(x, bool) else z3.BoolVal(x) for x in (r1, r2)])
+        else:
+            r1 = core.cmp_zero((a - b - margin).q, "ge")
+            robust = r1 if not isinstance(r1, bool) else z3.BoolVal(r1)
+        return self._check_sym(claim, label, key, detail or f"{op}: got {str(a)[:200]} want {str(b)[:200]}", robust=robust)
 
     def eq(self, got, want, label, key=None, detail=""):
         return self._rel(got, want, "eq", label, key, detail)
